@@ -317,7 +317,16 @@ func c18Data(r *rng) (*document.TemplateData, map[string]string, map[string]bool
 		if r.chance(75) {
 			v := c18Values[r.intn(len(c18Values))]
 			vals[fmt.Sprintf("v%d", k)] = v
-			td.SetVariable(fmt.Sprintf("v%d", k), v)
+			// the value as a plain string, or as one of the other types data may carry (a named string type, a value that
+			// prints itself): the text that is shown is the same
+			switch r.intn(5) {
+			case 0:
+				td.SetVariable(fmt.Sprintf("v%d", k), c18Named(v))
+			case 1:
+				td.SetVariable(fmt.Sprintf("v%d", k), c18Stringer{v})
+			default:
+				td.SetVariable(fmt.Sprintf("v%d", k), v)
+			}
 		}
 	}
 	conds := map[string]bool{}
@@ -1066,3 +1075,9 @@ func addZipParts(data []byte, extra map[string][]byte) []byte {
 	zw.Close()
 	return out.Bytes()
 }
+
+type c18Named string
+
+type c18Stringer struct{ s string }
+
+func (c c18Stringer) String() string { return c.s }
